@@ -256,3 +256,353 @@ Qed.
 
 Example C08_example : List.length gen_handoff = 44%nat.
 Proof. vm_compute. reflexivity. Qed.
+
+(* ====================================================================================================================
+   14-20. run_is_spec FOR THE EXECUTABLE MODELS OF THE SIMULATOR'S INSTRUCTION LOOP (Model/SimLoop.v: index class,
+   Model/SimLoopLayered.v: layered classes -- tied to simulator.py by the exact call-sequence correspondence of
+   checks/c03_simloop*.py, which checks/c08.py re-runs on its own cases).  Proofs: Proofs/SimLoopOwn*.v.
+
+   VOCABULARY.
+     tok               a device-table entry by name: TT1 q, TT2 q, Tp q, Ttm q, Trout q (label q), Ttint c t, Tpint c t (ordered
+                       pair), Ttime d (duration d times dt), Ttheta a;   call_args c: the tokens of the arguments of a method call
+                       (what the correspondence run compares with the real argument values);   call_indices c: its internal indices;
+     labels used       the used physical labels as naturals;  rk used q = rank (labels used) q = number of used labels below q;
+     own_calls used (j, x)   the calls that instruction x at position j of circ.data must issue, written from x's own qubits;
+     own_readout used 0 n    bitflip(k, tm[used[k]], rout[used[k]]) for k = 0..n-1: EVERY internal qubit, measured or not;
+     val : tok -> V    the device tables (V: any type of values);  gate set: ANY functions
+                         g1 k phase [p; T1; T2] (X / SX),  g2 k inv phase_a phase_b [t; p_ab; p_a; p_b; T1_a; T2_a; T1_b; T2_b]
+                         (CNOT / ECR for inv = false, CNOT_inv / ECR_inv for inv = true),  grelax [Dt; T1; T2],  gflip [tm; rout];
+     own_shot val n layout cs   Model/SimLoopOwn.v: a fresh BinaryCircuit(n, layout) (C11's builder model bstep + do_instr) fed the
+                       calls cs with that gate set, then statevector()'s view of the stored list;
+     own_run val L circ psi     the abstract run of theorems 9-11 (RelabelMain.run) at the instantiation C08_run_is_spec_vocabulary
+                       spells out;  own_circ val theta dur used data: the physical circuit read off the instruction list.
+
+   OF THE LIST ABOVE ("still decided only by the correspondence / oracle runs") these items become theorems about the models:
+     - run_is_spec for whole circuits, index class, any deterministic gate set (17), through the builder model of C11 and the
+       backend model of C02;  - measure / barrier / other instructions and delays on unused labels issue no call (14: own_calls);
+     - direction: made explicit -- the run model's op2 carries the direction bit (control label < target label) and gate2 / next2
+       are what the code does in that direction; relabelling needs dir_kept (18), and 21 shows that it cannot be dropped.
+   Still hypotheses / oracle-only: both measured sets give the same layout (hypothesis of 19); gate sets that draw random numbers;
+   whole runs of the layered classes (their calls: 15; their builders and backends: C03 / C01). *)
+From Coq Require Import NArith ZArith Permutation Lia.
+Require Import QG.Base.Res QG.Model.SimRun QG.Model.NoiseFreeRun QG.Model.SimLoop QG.Model.SimLoopLayered QG.Model.SimLoopOwn.
+Require Import QG.Proofs.OptimizerSem QG.Proofs.SimLoop QG.Proofs.SimLoopOwn QG.Proofs.SimLoopOwnRun QG.Proofs.SimLoopOwnSpec.
+Require Import QG.Proofs.SimLoopOwnRelabel QG.Proofs.SimLoopOwnTie.
+
+(* 14. OWN PARAMETERS, index class.  For data accepted by _process_layout (hypotheses of C03_translate_wf) and every nqubit up to the
+       number of used qubits: the loop raises nothing and its calls are, instruction by instruction and in order, own_calls of the
+       instruction's own qubits followed by the read-out calls; per call (own_params): the argument tokens are the table entries
+       at the call's OWN label(s) -- for a two-qubit gate t_int, p_int at the ORDERED pair (control, target), then p, T1, T2 of
+       the control and of the target in the order BinaryCircuit.CNOT / ECR expect (p_i, p_k, T1_ctr, T2_ctr, T1_trg, T2_trg) --,
+       a delay carries its own duration token, the internal indices are the ranks of these labels, and the bitflip on internal
+       qubit k carries tm, rout of the k-th used label. *)
+Theorem C08_calls_own_params :
+  forall (A D : Type) (theta : nat -> A) (dur : nat -> D) (data : list SimRun.instr) (used : list N) (meas : list (N * N)) (n : nat) (nq : Z),
+  Forall wf_qiskit data -> process_layout data = Ok (used, meas, n) -> (nq <= Z.of_nat n)%Z ->
+  exists cs, translate_calls A D theta dur used nq data = Ok cs /\
+    Forall (call_on A D used) cs /\ Forall (own_params A D used) cs /\
+    cs = (flat_map (own_calls A D theta dur used) (numbered data) ++ own_readout A D used 0 (Z.to_nat nq))%list.
+Proof. exact calls_own_params. Qed.
+Print Assumptions C08_calls_own_params.
+
+Theorem C08_own_params_vocabulary :
+  forall (A D : Type) (theta : nat -> A) (dur : nat -> D) (used : list N),
+  (forall v th, own_params A D used (CRz v th) <->
+     (v < List.length used)%nat /\ call_args A D (CRz v th) = [Ttheta th] /\ call_indices A D (CRz v th) = [v]) /\
+  (forall k v q, own_params A D used (C1 k v q) <->
+     In q used /\ call_indices A D (C1 k v q) = [rk used q] /\ call_args A D (C1 k v q) = [Tp q; TT1 q; TT2 q]) /\
+  (forall k cv tv c t, own_params A D used (C2 k cv tv c t) <->
+     In c used /\ In t used /\ c <> t /\ call_indices A D (C2 k cv tv c t) = [rk used c; rk used t] /\
+     call_args A D (C2 k cv tv c t) = [Ttint c t; Tpint c t; Tp c; Tp t; TT1 c; TT2 c; TT1 t; TT2 t]) /\
+  (forall v d q, own_params A D used (CRelax v d q) <->
+     In q used /\ call_indices A D (CRelax v d q) = [rk used q] /\ call_args A D (CRelax v d q) = [Ttime d; TT1 q; TT2 q]) /\
+  (forall k q, own_params A D used (CBitflip k q) <->
+     nth_error used k = Some q /\ In q used /\ call_indices A D (CBitflip k q) = [rk used q] /\ call_args A D (CBitflip k q) = [Ttm q; Trout q]) /\
+  (forall q, rk used q = rank (labels used) (N.to_nat q)) /\ labels used = map N.to_nat used /\
+  (forall j q, own_calls A D theta dur used (j, mkinstr OpRz [q] []) = [CRz (rk used q) (theta j)] /\
+     own_calls A D theta dur used (j, mkinstr OpSx [q] []) = [C1 KSX (rk used q) q] /\
+     own_calls A D theta dur used (j, mkinstr OpX [q] []) = [C1 KX (rk used q) q] /\
+     own_calls A D theta dur used (j, mkinstr OpDelay [q] []) = (if memN q used then [CRelax (rk used q) (dur j) q] else [])) /\
+  (forall j c t, own_calls A D theta dur used (j, mkinstr OpCx [c; t] []) = [C2 KCX (rk used c) (rk used t) c t] /\
+     own_calls A D theta dur used (j, mkinstr OpEcr [c; t] []) = [C2 KECR (rk used c) (rk used t) c t]) /\
+  (forall j qs cs, own_calls A D theta dur used (j, mkinstr OpMeasure qs cs) = [] /\ own_calls A D theta dur used (j, mkinstr OpBarrier qs cs) = [] /\
+     own_calls A D theta dur used (j, mkinstr OpOther qs cs) = []) /\
+  (forall k cnt, own_readout A D used k cnt = map (fun i => CBitflip i (nth i used 0%N)) (seq k cnt)).
+Proof. exact own_params_vocabulary. Qed.
+Print Assumptions C08_own_params_vocabulary.
+
+(* 15. OWN PARAMETERS, layered classes (Circuit / Standard / Efficient / OneCircuit).  The calls are the per-instruction loops
+       (groups) of the instructions' own labels followed by bitflip(k, tm[k], rout[k]) for every k; every call that carries table
+       entries indexes the tables with the index it acts on (own_lparams: label = index, ordered pair (control, target)); and the
+       loop of one instruction on in-range labels issues exactly ONE such call, on the operated (control) qubit's own iteration. *)
+Theorem C08_calls_own_params_layered :
+  forall (A D : Type) (theta : nat -> A) (dur : nat -> D),
+  (forall (data : list SimRun.instr) (used : list N) (meas : list (N * N)) (n : nat) (nq : Z),
+   Forall wf_qiskit data -> process_layout data = Ok (used, meas, n) ->
+   translate_calls_layered A D theta dur used nq data
+   = Ok (calls_of_groups A D (Z.to_nat nq) (flat_map (own_groups A D theta dur used) (numbered data)))) /\
+  (forall (nq : nat) (gs : list (group A D)), Forall (own_lparams A D nq) (calls_of_groups A D nq gs)) /\
+  (forall (nq : nat) (g : group A D),
+   match g with
+   | GRz q th => group_calls A D nq g = [LC (CRz q th)]
+   | G1 k q => (q < nq)%nat -> filter (is_LC A D) (group_calls A D nq g) = [LC (C1 k q (N.of_nat q))]
+   | G2 k c t => (c < nq)%nat -> filter (is_LC A D) (group_calls A D nq g) = [LC (C2 k c t (N.of_nat c) (N.of_nat t))]
+   | SimLoopLayered.GRelax q d => (q < nq)%nat -> filter (is_LC A D) (group_calls A D nq g) = [LC (CRelax q d (N.of_nat q))]
+   end).
+Proof. exact calls_own_params_layered. Qed.
+Print Assumptions C08_calls_own_params_layered.
+
+Theorem C08_own_lparams_vocabulary :
+  forall (A D : Type) (theta : nat -> A) (dur : nat -> D) (nq : nat) (used : list N),
+  (forall k, own_lparams A D nq (LI k) <-> (k < nq)%nat) /\
+  (forall k v q, own_lparams A D nq (LC (C1 k v q)) <->
+     q = N.of_nat v /\ call_args A D (C1 k v q) = [Tp (N.of_nat v); TT1 (N.of_nat v); TT2 (N.of_nat v)]) /\
+  (forall k cv tv c t, own_lparams A D nq (LC (C2 k cv tv c t)) <->
+     c = N.of_nat cv /\ t = N.of_nat tv /\
+     call_args A D (C2 k cv tv c t) = [Ttint (N.of_nat cv) (N.of_nat tv); Tpint (N.of_nat cv) (N.of_nat tv); Tp (N.of_nat cv); Tp (N.of_nat tv);
+                                       TT1 (N.of_nat cv); TT2 (N.of_nat cv); TT1 (N.of_nat tv); TT2 (N.of_nat tv)]) /\
+  (forall v d q, own_lparams A D nq (LC (CRelax v d q)) <-> q = N.of_nat v /\ call_args A D (CRelax v d q) = [Ttime d; TT1 (N.of_nat v); TT2 (N.of_nat v)]) /\
+  (forall k q, own_lparams A D nq (LC (CBitflip k q)) <->
+     q = N.of_nat k /\ (k < nq)%nat /\ call_args A D (CBitflip k q) = [Ttm (N.of_nat k); Trout (N.of_nat k)]) /\
+  (forall j c t, own_groups A D theta dur used (j, mkinstr OpCx [c; t] []) = [G2 KCX (N.to_nat c) (N.to_nat t)] /\
+     own_groups A D theta dur used (j, mkinstr OpEcr [c; t] []) = [G2 KECR (N.to_nat c) (N.to_nat t)]) /\
+  (forall j q, own_groups A D theta dur used (j, mkinstr OpSx [q] []) = [G1 KSX (N.to_nat q)] /\
+     own_groups A D theta dur used (j, mkinstr OpX [q] []) = [G1 KX (N.to_nat q)] /\
+     own_groups A D theta dur used (j, mkinstr OpRz [q] []) = [GRz (N.to_nat q) (theta j)] /\
+     own_groups A D theta dur used (j, mkinstr OpDelay [q] []) = (if memN q used then [SimLoopLayered.GRelax (N.to_nat q) (dur j)] else [])).
+Proof. exact own_lparams_vocabulary. Qed.
+Print Assumptions C08_own_lparams_vocabulary.
+
+(* 16. THE HAND-OFF OF Model/SimLoopOwn.v IS THE CODE'S: for every BinaryCircuit method the simulator calls (CNOT and ECR in both
+       directions, X, SX, relaxation, bitflip, Rz) the gate-set method, the ORDER of its phase and parameter arguments, the qubits
+       under the matrix's slots and the phase writes that instr_of_call + do_instr + bstep produce are those of the regenerated
+       trace table gen_handoff (circuit.py re-executed symbolically on every run). *)
+Theorem C08_own_handoff_tied :
+  forallb (fun h => negb (used_by_simulator h) || tie_ok h) gen_handoff = true /\
+  map (fun h => (h_meth h, h_lt h)) (filter used_by_simulator gen_handoff)
+  = [("CNOT", true); ("CNOT", false); ("ECR", true); ("ECR", false); ("X", true); ("SX", true); ("relaxation", true); ("bitflip", true); ("Rz", true)].
+Proof. exact own_handoff_tied. Qed.
+Print Assumptions C08_own_handoff_tied.
+
+(* 17. run_is_spec_index.  For every commutative ring of scalars, every table valuation, EVERY gate set (functions of the phases and
+       argument values they are called with), every data accepted by _process_layout, with nqubit = number of used qubits: the
+       calls exist and carry own parameters (14); fed to the builder model of BinaryCircuit they raise nothing; the stored list is
+       well-formed input of BinaryBackend and denotes, amplitude by amplitude, the abstract run of theorems 9-11 on the physical
+       circuit own_circ of the instruction list; and BinaryBackend's model (C02_bin_spec) returns exactly that state. *)
+Theorem C08_run_is_spec_index :
+  forall (T : Type) (rO rI : T) (radd rmul rsub : T -> T -> T) (ropp : T -> T),
+  Ring_theory.ring_theory rO rI radd rmul rsub ropp eq ->
+  forall (A D V : Type) (val : tok A D -> V) (ph : A -> Z * Z)
+         (g1 : kind1 -> Z * Z -> list V -> m2 T) (g2 : kind2 -> bool -> Z * Z -> Z * Z -> list V -> m4 T) (grelax gflip : list V -> m2 T)
+         (theta : nat -> A) (dur : nat -> D) (data : list SimRun.instr) (used : list N) (meas : list (N * N)) (n : nat),
+  Forall wf_qiskit data -> process_layout data = Ok (used, meas, n) ->
+  let L := labels used in let circ := own_circ A D V val theta dur used data in
+  NoDup L /\ n = List.length L /\ Forall (pop_on (op1 A V) (kind2 * bool) L) circ /\
+  exists cs, translate_calls A D theta dur used (Z.of_nat n) data = Ok cs /\ Forall (own_params A D used) cs /\
+    forall (layout : option (list Z)) (psi : bits -> T),
+    exists content, own_shot A D V val ph (mat T) (mid2 T rO rI) (gs T V g1 g2 grelax gflip) n layout cs = Ok content /\
+      Forall (wf_in T n) content /\
+      (forall b, sem T radd rmul (map (den T rO rI) content) psi b = own_run T radd rmul A D V val ph g1 g2 grelax gflip L circ psi b) /\
+      (content <> [] ->
+       exists out, Sparse.bin_statevector T rO radd rmul (mat T) (mmul T radd rmul) (mkron T rmul) (mid2 T rO rI) (mid4 T rO rI) (SparseApply.entry_mat T rO)
+                     n content psi = Ok out /\
+         state_eq T n out (own_run T radd rmul A D V val ph g1 g2 grelax gflip L circ psi)).
+Proof. exact run_is_spec_index. Qed.
+Print Assumptions C08_run_is_spec_index.
+
+Theorem C08_run_is_spec_vocabulary :
+  forall (T : Type) (radd rmul : T -> T -> T) (A D V : Type) (val : tok A D -> V) (ph : A -> Z * Z)
+    (g1 : kind1 -> Z * Z -> list V -> m2 T) (g2 : kind2 -> bool -> Z * Z -> Z * Z -> list V -> m4 T) (grelax gflip : list V -> m2 T)
+    (theta : nat -> A) (dur : nat -> D),
+  (forall L circ psi, own_run T radd rmul A D V val ph g1 g2 grelax gflip L circ psi
+     = run T radd rmul (qcal V) (pcal V) (Z * Z)%type (op1 A V) (kind2 * bool)%type (gate1 T A V g1 grelax) (next1 A V ph) (gate2 T V g2) next2
+         (ro T V gflip) L (T1tab A D V val) (T2tab A D V val) circ Builders.p0 psi) /\
+  (forall q, T1tab A D V val q = mkqcal V (val (Tp (N.of_nat q))) (val (TT1 (N.of_nat q))) (val (TT2 (N.of_nat q))) (val (Ttm (N.of_nat q))) (val (Trout (N.of_nat q)))) /\
+  (forall c t, T2tab A D V val c t = mkpcal V (val (Ttint (N.of_nat c) (N.of_nat t))) (val (Tpint (N.of_nat c) (N.of_nat t)))) /\
+  (forall th p c, gate1 T A V g1 grelax (O1rz A V th) p c = None /\ next1 A V ph (O1rz A V th) p = Builders.padd p (ph th)) /\
+  (forall k p c, gate1 T A V g1 grelax (O1g A V k) p c = Some (g1 k (Builders.pneg p) [c_p V c; c_T1 V c; c_T2 V c]) /\ next1 A V ph (O1g A V k) p = p) /\
+  (forall dt p c, gate1 T A V g1 grelax (O1relax A V dt) p c = Some (grelax [dt; c_T1 V c; c_T2 V c]) /\ next1 A V ph (O1relax A V dt) p = p) /\
+  (forall k pc pt cc ct c2, gate2 T V g2 (k, true) pc pt cc ct c2
+     = g2 k false pc pt [c_tint V c2; c_pint V c2; c_p V cc; c_p V ct; c_T1 V cc; c_T2 V cc; c_T1 V ct; c_T2 V ct]) /\
+  (forall pc pt cc ct c2, gate2 T V g2 (KCX, false) pc pt cc ct c2
+     = swap4 (g2 KCX true pc pt [c_tint V c2; c_pint V c2; c_p V cc; c_p V ct; c_T1 V cc; c_T2 V cc; c_T1 V ct; c_T2 V ct])) /\
+  (forall pc pt cc ct c2, gate2 T V g2 (KECR, false) pc pt cc ct c2
+     = swap4 (g2 KECR true pt pc [c_tint V c2; c_pint V c2; c_p V ct; c_p V cc; c_T1 V ct; c_T2 V ct; c_T1 V cc; c_T2 V cc])) /\
+  (forall (G : m4 T) r c, swap4 G r c = G (snd r, fst r) (snd c, fst c)) /\
+  (forall pc pt, next2 (KCX, true) pc pt = (Builders.padd pc (Builders.quarter (-1)), pt) /\
+                 next2 (KCX, false) pc pt = (Builders.padd (Builders.padd pc (Builders.quarter 1)) (Builders.quarter 2), Builders.padd pt (Builders.quarter 1)) /\
+                 next2 (KECR, true) pc pt = (pc, pt) /\ next2 (KECR, false) pc pt = (pc, pt)) /\
+  (forall c, ro T V gflip c = gflip [c_tm V c; c_rout V c]) /\
+  (forall used data, own_circ A D V val theta dur used data = flat_map (own_pops A D V val theta dur used) (numbered data)) /\
+  (forall used j x, own_pops A D V val theta dur used (j, x) = pops_annot A D V val used (theta j) (dur j) x) /\
+  (forall used th du q, pops_annot A D V val used th du (mkinstr OpRz [q] []) = [P1 (op1 A V) (kind2 * bool)%type (O1rz A V th) (N.to_nat q)] /\
+     pops_annot A D V val used th du (mkinstr OpSx [q] []) = [P1 (op1 A V) (kind2 * bool)%type (O1g A V KSX) (N.to_nat q)] /\
+     pops_annot A D V val used th du (mkinstr OpX [q] []) = [P1 (op1 A V) (kind2 * bool)%type (O1g A V KX) (N.to_nat q)] /\
+     pops_annot A D V val used th du (mkinstr OpDelay [q] [])
+       = (if memN q used then [P1 (op1 A V) (kind2 * bool)%type (O1relax A V (val (Ttime du))) (N.to_nat q)] else [])) /\
+  (forall used th du c t, pops_annot A D V val used th du (mkinstr OpCx [c; t] []) = [P2 (op1 A V) (kind2 * bool)%type (KCX, (c <? t)%N) (N.to_nat c) (N.to_nat t)] /\
+     pops_annot A D V val used th du (mkinstr OpEcr [c; t] []) = [P2 (op1 A V) (kind2 * bool)%type (KECR, (c <? t)%N) (N.to_nat c) (N.to_nat t)]) /\
+  (forall used th du qs cs, pops_annot A D V val used th du (mkinstr OpMeasure qs cs) = [] /\ pops_annot A D V val used th du (mkinstr OpBarrier qs cs) = [] /\
+     pops_annot A D V val used th du (mkinstr OpOther qs cs) = []).
+Proof. exact run_is_spec_vocabulary. Qed.
+Print Assumptions C08_run_is_spec_vocabulary.
+
+(* 18. relabel_invariant for the modelled simulator run.  Relabel every qubit of the instruction list by an injective piN that keeps
+       the order of control and target of every cx / ecr (dir_kept), permute the tables accordingly (val' at the relabelled token =
+       val at the token) and read the initial state through the induced permutation: the relabelled list is accepted with the
+       relabelled measured pairs and a layout that is the image of the old one; both shots succeed; the final amplitudes agree
+       through the induced permutation of the internal indices, and so does the key distribution of every list Mq of measured
+       physical qubits under any Born reading.  (Without dir_kept the code switches between CNOT and CNOT_inv / ECR and ECR_inv
+       with other phase updates; for an arbitrary gate set these are unrelated matrices -- see the registry note.) *)
+Theorem C08_relabel_invariant_simloop :
+  forall (T : Type) (rO rI : T) (radd rmul rsub : T -> T -> T) (ropp : T -> T),
+  Ring_theory.ring_theory rO rI radd rmul rsub ropp eq ->
+  forall (W : Type) (wO wI : W) (wadd wmul wsub : W -> W -> W) (wopp : W -> W),
+  Ring_theory.ring_theory wO wI wadd wmul wsub wopp eq ->
+  forall (born : T -> W) (A D V : Type) (ph : A -> Z * Z)
+         (g1 : kind1 -> Z * Z -> list V -> m2 T) (g2 : kind2 -> bool -> Z * Z -> Z * Z -> list V -> m4 T) (grelax gflip : list V -> m2 T)
+         (piN : N -> N), injN piN ->
+  forall val val' : tok A D -> V, (forall t, val' (relabel_tok A D piN t) = val t) ->
+  forall (theta : nat -> A) (dur : nat -> D) (data : list SimRun.instr) (used : list N) (meas : list (N * N)) (n : nat) (psi psi' : bits -> T),
+  Forall wf_qiskit data -> process_layout data = Ok (used, meas, n) -> Forall (dir_kept piN) data ->
+  let L := labels used in let data' := map (relabel_instr piN) data in
+  (forall b, List.length b = n -> psi' (permute (induced L (pi_nat piN)) b) = psi b) ->
+  exists used' cs cs',
+    process_layout data' = Ok (used', map (relabel_meas piN) meas, n) /\ Permutation (labels used') (map (pi_nat piN) L) /\
+    translate_calls A D theta dur used (Z.of_nat n) data = Ok cs /\
+    translate_calls A D theta dur used' (Z.of_nat n) data' = Ok cs' /\
+    perm_on n (induced L (pi_nat piN)) /\
+    (forall q, In q L -> induced L (pi_nat piN) (rank L q) = rank (labels used') (pi_nat piN q)) /\
+    forall layout layout' : option (list Z), exists content content',
+      own_shot A D V val ph (mat T) (mid2 T rO rI) (gs T V g1 g2 grelax gflip) n layout cs = Ok content /\
+      own_shot A D V val' ph (mat T) (mid2 T rO rI) (gs T V g1 g2 grelax gflip) n layout' cs' = Ok content' /\
+      (forall b, List.length b = n ->
+         sem T radd rmul (map (den T rO rI) content') psi' (permute (induced L (pi_nat piN)) b) = sem T radd rmul (map (den T rO rI) content) psi b) /\
+      (forall (Mq : list nat) (t : bits), Forall (fun q => In q L) Mq ->
+         marg W wO wadd n (fun b => born (sem T radd rmul (map (den T rO rI) content') psi' b)) (map (rank (labels used')) (map (pi_nat piN) Mq)) t
+         = marg W wO wadd n (fun b => born (sem T radd rmul (map (den T rO rI) content) psi b)) (map (rank L) Mq) t).
+Proof. exact relabel_invariant_simloop. Qed.
+Print Assumptions C08_relabel_invariant_simloop.
+
+(* 19. subset_is_marginal for the modelled simulator run.  Two instruction lists with the same operations (non-measure instructions
+       with their angles / durations: ops_of) that _process_layout accepts with the SAME layout: same final state; and when the
+       second measures the sub-selection Mq[idx_0], Mq[idx_1], ... of the first one's measured qubits Mq, its key distribution is
+       the marginal.  (map (rank L) Mq are the positions _measurament reads: C08_layout_is_rank.) *)
+Theorem C08_subset_is_marginal_simloop :
+  forall (T : Type) (rO rI : T) (radd rmul rsub : T -> T -> T) (ropp : T -> T),
+  Ring_theory.ring_theory rO rI radd rmul rsub ropp eq ->
+  forall (W : Type) (wO wI : W) (wadd wmul wsub : W -> W -> W) (wopp : W -> W),
+  Ring_theory.ring_theory wO wI wadd wmul wsub wopp eq ->
+  forall (born : T -> W) (A D V : Type) (ph : A -> Z * Z)
+         (g1 : kind1 -> Z * Z -> list V -> m2 T) (g2 : kind2 -> bool -> Z * Z -> Z * Z -> list V -> m4 T) (grelax gflip : list V -> m2 T)
+         (val : tok A D -> V) (theta : nat -> A) (dur : nat -> D) (theta' : nat -> A) (dur' : nat -> D)
+         (data data' : list SimRun.instr) (used : list N) (meas meas' : list (N * N)) (n : nat) (idx : list nat),
+  Forall wf_qiskit data -> Forall wf_qiskit data' ->
+  process_layout data = Ok (used, meas, n) -> process_layout data' = Ok (used, meas', n) ->
+  ops_of A D theta dur data = ops_of A D theta' dur' data' ->
+  let L := labels used in
+  let Mq := map (fun qc : N * N => N.to_nat (fst qc)) meas in let Mq' := map (fun qc : N * N => N.to_nat (fst qc)) meas' in
+  exists cs cs',
+    translate_calls A D theta dur used (Z.of_nat n) data = Ok cs /\
+    translate_calls A D theta' dur' used (Z.of_nat n) data' = Ok cs' /\
+    forall (layout layout' : option (list Z)) (psi : bits -> T), exists content content',
+      own_shot A D V val ph (mat T) (mid2 T rO rI) (gs T V g1 g2 grelax gflip) n layout cs = Ok content /\
+      own_shot A D V val ph (mat T) (mid2 T rO rI) (gs T V g1 g2 grelax gflip) n layout' cs' = Ok content' /\
+      (forall b, sem T radd rmul (map (den T rO rI) content') psi b = sem T radd rmul (map (den T rO rI) content) psi b) /\
+      (Mq' = map (fun k => nth k Mq 0%nat) idx -> Forall (fun k => (k < List.length Mq)%nat) idx -> forall t : bits,
+         marg W wO wadd n (fun b => born (sem T radd rmul (map (den T rO rI) content') psi b)) (map (rank L) Mq') t
+         = bsum W wadd (List.length Mq) (fun t' => if beq (bsel t' idx) t
+                                                   then marg W wO wadd n (fun b => born (sem T radd rmul (map (den T rO rI) content) psi b)) (map (rank L) Mq) t'
+                                                   else wO)).
+Proof. exact subset_is_marginal_simloop. Qed.
+Print Assumptions C08_subset_is_marginal_simloop.
+
+Theorem C08_simloop_clauses_vocabulary :
+  forall (A D : Type) (piN : N -> N) (theta : nat -> A) (dur : nat -> D),
+  (injN piN <-> forall a b, piN a = piN b -> a = b) /\
+  (forall x, relabel_instr piN x = mkinstr (iname x) (map piN (iqs x)) (ics x)) /\
+  (forall qc, relabel_meas piN qc = (piN (fst qc), snd qc)) /\
+  (forall q, pi_nat piN q = N.to_nat (piN (N.of_nat q))) /\
+  (forall c t cs, dir_kept piN (mkinstr OpCx [c; t] cs) <-> (piN c <? piN t)%N = (c <? t)%N) /\
+  (forall c t cs, dir_kept piN (mkinstr OpEcr [c; t] cs) <-> (piN c <? piN t)%N = (c <? t)%N) /\
+  (forall q, relabel_tok A D piN (TT1 q) = TT1 (piN q) /\ relabel_tok A D piN (TT2 q) = TT2 (piN q) /\ relabel_tok A D piN (Tp q) = Tp (piN q) /\
+             relabel_tok A D piN (Ttm q) = Ttm (piN q) /\ relabel_tok A D piN (Trout q) = Trout (piN q)) /\
+  (forall c t, relabel_tok A D piN (Ttint c t) = Ttint (piN c) (piN t) /\ relabel_tok A D piN (Tpint c t) = Tpint (piN c) (piN t)) /\
+  (forall d a, relabel_tok A D piN (Ttime d) = Ttime d /\ relabel_tok A D piN (Ttheta a) = Ttheta a) /\
+  (forall data, ops_of A D theta dur data
+     = map (fun jx : nat * SimRun.instr => (theta (fst jx), dur (fst jx), snd jx))
+           (filter (fun jx : nat * SimRun.instr => negb (is_measure (iname (snd jx)))) (numbered data))).
+Proof. exact simloop_clauses_vocabulary. Qed.
+Print Assumptions C08_simloop_clauses_vocabulary.
+
+(* 20. Non-vacuity: rz(5); cx(5,2) [control above target]; delay(7) [label otherwise unused: dropped]; delay(2); sx(9); barrier; ecr(2,5);
+       three measures, on labels {2,5,9}; relabelling 2 -> 4, 5 -> 7, 9 -> 0 (not monotone, keeps the order of 2 and 5): the hypotheses of
+       14, 17 and 18 hold; the calls with their own tokens, the physical circuit, the relabelled layout and the induced permutation. *)
+Example C08_simloop_example :
+  let data := [mkinstr OpRz [5%N] []; mkinstr OpCx [5%N; 2%N] []; mkinstr OpDelay [7%N] []; mkinstr OpDelay [2%N] []; mkinstr OpSx [9%N] [];
+               mkinstr OpBarrier [2%N; 5%N; 9%N] []; mkinstr OpEcr [2%N; 5%N] [];
+               mkinstr OpMeasure [5%N] [0%N]; mkinstr OpMeasure [9%N] [1%N]; mkinstr OpMeasure [2%N] [2%N]] in
+  let piN := fun q : N => if N.eqb q 9 then 0%N else (q + 2)%N in
+  let val := fun t : tok nat nat => t in
+  Forall wf_qiskit data /\ process_layout data = Ok ([2%N; 5%N; 9%N], [(5%N, 0%N); (9%N, 1%N); (2%N, 2%N)], 3%nat) /\
+  injN piN /\ Forall (dir_kept piN) data /\
+  translate_calls nat nat (fun j => j) (fun j => j) [2%N; 5%N; 9%N] 3 data
+    = Ok [CRz 1 0; C2 KCX 1 0 5%N 2%N; CRelax 0 3 2%N; C1 KSX 2 9%N; C2 KECR 0 1 2%N 5%N; CBitflip 0 2%N; CBitflip 1 5%N; CBitflip 2 9%N] /\
+  call_args nat nat (C2 KCX 1 0 5%N 2%N) = [Ttint 5%N 2%N; Tpint 5%N 2%N; Tp 5%N; Tp 2%N; TT1 5%N; TT2 5%N; TT1 2%N; TT2 2%N] /\
+  own_circ nat nat (tok nat nat) val (fun j => j) (fun j => j) [2%N; 5%N; 9%N] data
+    = [P1 _ _ (O1rz nat _ 0%nat) 5; P2 _ _ (KCX, false) 5 2; P1 _ _ (O1relax nat _ (Ttime 3%nat)) 2; P1 _ _ (O1g nat _ KSX) 9; P2 _ _ (KECR, true) 2 5] /\
+  process_layout (map (relabel_instr piN) data) = Ok ([0%N; 4%N; 7%N], [(7%N, 0%N); (0%N, 1%N); (4%N, 2%N)], 3%nat) /\
+  map (induced [2; 5; 9] (pi_nat piN)) [0; 1; 2]%nat = [1; 2; 0]%nat.
+Proof.
+  cbv zeta. split.
+  { repeat (apply Forall_cons; [unfold wf_qiskit; cbn; eauto; try (do 2 eexists; split; [reflexivity|discriminate]); try discriminate|]). apply Forall_nil. }
+  split; [vm_compute; reflexivity|]. split.
+  { intros a b. destruct (N.eqb_spec a 9) as [->|Ha], (N.eqb_spec b 9) as [->|Hb]; intros E; try reflexivity; lia. }
+  split. { repeat (apply Forall_cons; [vm_compute; auto|]). apply Forall_nil. }
+  repeat split; vm_compute; reflexivity.
+Qed.
+
+(* 21. THE DIRECTION HYPOTHESIS OF 18 IS NEEDED for an arbitrary gate set: the statement of 18 without dir_kept (amplitude clause) is
+       FALSE.  Witness (integer scalars): cx(0,1) with both qubits measured, relabelling 0 <-> 1, a gate set whose CNOT is the identity
+       and whose CNOT_inv is the zero matrix -- every other hypothesis of 18 holds, both shots succeed, the amplitude of 00 is 1
+       before and 0 after.  (For the package's own gate sets CNOT / CNOT_inv and ECR / ECR_inv are the same operator up to the
+       virtual-Z frame, and only the Born weights are direction-independent: C03_noise_free_born_index for the noise-free set;
+       for noisy sets this stays with the relabelling oracle of checks/c08.py.) *)
+Require Import QG.Proofs.SimLoopOwnWitness.
+Theorem C08_relabel_needs_direction :
+  injN w_pi /\ Forall wf_qiskit w_data /\ process_layout w_data = Ok ([0%N; 1%N], [(0%N, 0%N); (1%N, 1%N)], 2) /\
+  ~ Forall (dir_kept w_pi) w_data /\
+  (forall b, List.length b = 2 -> w_psi (permute (induced (labels [0%N; 1%N]) (pi_nat w_pi)) b) = w_psi b) /\
+  exists cs cs' content content',
+    process_layout (map (relabel_instr w_pi) w_data) = Ok ([0%N; 1%N], map (relabel_meas w_pi) [(0%N, 0%N); (1%N, 1%N)], 2) /\
+    translate_calls unit unit (fun _ => tt) (fun _ => tt) [0%N; 1%N] 2 w_data = Ok cs /\
+    translate_calls unit unit (fun _ => tt) (fun _ => tt) [0%N; 1%N] 2 (map (relabel_instr w_pi) w_data) = Ok cs' /\
+    w_shot cs = Ok content /\ w_shot cs' = Ok content' /\
+    sem Z Z.add Z.mul (map (den Z 0%Z 1%Z) content) w_psi [false; false] = 1%Z /\
+    sem Z Z.add Z.mul (map (den Z 0%Z 1%Z) content') w_psi (permute (induced (labels [0%N; 1%N]) (pi_nat w_pi)) [false; false]) = 0%Z.
+Proof. exact relabel_needs_direction. Qed.
+Print Assumptions C08_relabel_needs_direction.
+
+Definition C08_relabel_any_direction_full : Prop :=
+  forall (T : Type) (rO rI : T) (radd rmul rsub : T -> T -> T) (ropp : T -> T),
+  Ring_theory.ring_theory rO rI radd rmul rsub ropp eq ->
+  forall (A D V : Type) (ph : A -> Z * Z)
+         (g1 : kind1 -> Z * Z -> list V -> m2 T) (g2 : kind2 -> bool -> Z * Z -> Z * Z -> list V -> m4 T) (grelax gflip : list V -> m2 T)
+         (piN : N -> N), injN piN ->
+  forall val val' : tok A D -> V, (forall t, val' (relabel_tok A D piN t) = val t) ->
+  forall (theta : nat -> A) (dur : nat -> D) (data : list SimRun.instr) (used : list N) (meas : list (N * N)) (n : nat) (psi psi' : bits -> T),
+  Forall wf_qiskit data -> process_layout data = Ok (used, meas, n) ->
+  let L := labels used in let data' := map (relabel_instr piN) data in
+  (forall b, List.length b = n -> psi' (permute (induced L (pi_nat piN)) b) = psi b) ->
+  exists used' cs cs',
+    process_layout data' = Ok (used', map (relabel_meas piN) meas, n) /\
+    translate_calls A D theta dur used (Z.of_nat n) data = Ok cs /\
+    translate_calls A D theta dur used' (Z.of_nat n) data' = Ok cs' /\
+    forall layout layout' : option (list Z), exists content content',
+      own_shot A D V val ph (mat T) (mid2 T rO rI) (gs T V g1 g2 grelax gflip) n layout cs = Ok content /\
+      own_shot A D V val' ph (mat T) (mid2 T rO rI) (gs T V g1 g2 grelax gflip) n layout' cs' = Ok content' /\
+      (forall b, List.length b = n ->
+         sem T radd rmul (map (den T rO rI) content') psi' (permute (induced L (pi_nat piN)) b) = sem T radd rmul (map (den T rO rI) content) psi b).
+Theorem C08_relabel_any_direction_refuted : ~ C08_relabel_any_direction_full.
+Proof. exact relabel_any_direction_refuted. Qed.
+Print Assumptions C08_relabel_any_direction_refuted.
